@@ -2,6 +2,7 @@ import I18n.Lemmas.PoUnescape
 import I18n.Lemmas.PoFlags
 import I18n.Lemmas.PoPre
 import I18n.Lemmas.PoComments
+import I18n.Lemmas.PoFile
 /-! # C10 — PO text decodes to exactly the strings gettext would see
 
 Model: `I18n.Po` (Model/Po.lean) — `polib.pofile` after `lib.polib4us.install_patches()`.
@@ -228,6 +229,41 @@ theorem load_file_partial (E : Codec) (env : Env) (hsp : env.isSpace = pyIsSpace
   obtain ⟨f, h1, h2, h3⟩ := load_spells_partial E env hsp hdig hdec enc hE cat hv
   refine ⟨f, ?_, h2, h3⟩
   simp only [loadWith, hfile, Lemmas.PoPre.preprocess_body env contents b l hl tail ht hlines, hb, h1]
+
+/-- **load_spells_file_partial**: the same for every spelled catalog, with the side conditions about the body discharged —
+    the last line of a `CatalogSp` is a message line and `Codecs.open` never holds a message line back.  What remains as
+    hypothesis is about the FILE, not the spelling: it decodes; its physical lines are `body ++ tail`; `body` with atypical
+    comments normalised is the spelling; `Codecs.open` holds back every trailing line (blank lines, `# …` comments, `#~| …`,
+    bare `#.` `#:` `#,`).  (`partial`: the charset `enc` is given; `detectEncoding` is tied by streams, see
+    `detect_first_match_refuted`.) -/
+theorem load_spells_file_partial (E : Codec) (env : Env) (hsp : env.isSpace = pyIsSpace) (hdig : env.isDigit = pyIsDigit)
+    (hdec : env.decimal = pyDecimal) (enc : Bytes) (hE : CodecOk env enc E) (cat : CatalogSp) (hv : cat.Valid E)
+    (file : Bytes) (contents : Text) (hfile : decodeFile env enc file = .ok contents)
+    (body tail : List Text) (hlines : physLines contents = body ++ tail)
+    (hb : body.map normalise = cat.lines) (ht : ∀ x ∈ tail, Lemmas.PoPre.Held env x) :
+    ∃ f, loadWith env enc file = .ok f ∧ f.header = cat.headerText ∧
+      f.entries.map Lemmas.PoCatalog.content = cat.entries.map EntrySp.entry := by
+  obtain ⟨b', l', hcl, hmsg⟩ := Lemmas.PoFile.catalog_last E cat hv
+  have hne : body ≠ [] := by intro e; rw [e, hcl] at hb; simp at hb
+  obtain ⟨b, l, rfl⟩ : ∃ b l, body = b ++ [l] := ⟨body.dropLast, body.getLast hne, (List.dropLast_concat_getLast hne).symm⟩
+  have hl' : normalise l = l' := by
+    rw [hcl] at hb
+    simp only [List.map_append, List.map_cons, List.map_nil] at hb
+    have := List.append_inj' hb (by simp)
+    simpa using this.2
+  have hl : ¬ Lemmas.PoPre.Held env l := by
+    unfold Lemmas.PoPre.Held
+    rw [hl', Lemmas.PoFile.not_held_msg env hsp l' hmsg]
+    simp
+  exact load_file_partial E env hsp hdig hdec enc hE cat hv file contents hfile b l tail (by simpa using hlines) hl ht hb
+
+/-- the trailing lines a file may have after its last message line without losing it (fix ed9c45c for the comment forms):
+    every noise line, and every translator comment starting in the first column, is held back by `Codecs.open` -/
+theorem codecs_open_holds_trailing (env : Env) (hsp : env.isSpace = pyIsSpace) :
+    (∀ z : Noise, z.Valid → Lemmas.PoPre.Held env z.render) ∧
+    (∀ rest : Text, rest ≠ [] →
+      (∀ c r, rest = c :: r → c = ' ' ∨ ¬ (c = '.' ∨ c = ':' ∨ c = ',' ∨ c = '|' ∨ c = '~')) → Lemmas.PoPre.Held env ('#' :: rest)) :=
+  ⟨fun z hz => Lemmas.PoFile.noise_held env hsp z hz, fun rest hne h => Lemmas.PoFile.tcomment_held env rest h hne⟩
 
 /-- the physical lines of a file are its `\n`-terminated pieces: no other character ends a line (Debian #692283) -/
 theorem phys_lines (ls : List Text) (h : ∀ l ∈ ls, Lemmas.PoPre.IsLine l) : physLines ls.flatten = ls :=
